@@ -10,7 +10,7 @@
    the context's groups (From/To = the groups' replica ids, same names, no snapshot / reject /
    reject hint / context, node ids = the two ends of the stream), and frames respect the decoder's
    size limit. *)
-From ZV Require Import Common.Bytes Stream.Consts Stream.Proto Stream.Model Stream.ProofsProto Stream.Proofs Stream.Wf Stream.ProofsWf Stream.ProofsTotal Stream.ProofsConn Stream.ProofsCompat Stream.ProofsExtra Stream.Examples.
+From ZV Require Import Common.Bytes Stream.Consts Stream.Proto Stream.Model Stream.ProofsProto Stream.Proofs Stream.Wf Stream.ProofsWf Stream.ProofsTotal Stream.ProofsConn Stream.ProofsCompat Stream.ProofsExtra Stream.ProofsHttp Stream.Examples.
 Open Scope N_scope.
 
 (* (1) msgappv2: every well-formed sequence, of any number of interleaved raft groups, is read back
@@ -105,6 +105,42 @@ Theorem C16_plain_truncated_wf : forall ms p q,
 Proof. exact plain_truncated_wf. Qed.
 Print Assumptions C16_plain_truncated_wf.
 
+(* (5') the other two message paths. Pipeline (pipeline.go / pipelineHandler): the POST body is the marshalled
+        message, nothing else. Snapshot path (snapshot_sender.go createSnapBody / snapshotHandler): a message frame
+        of the plain codec followed by the snapshot file. [short] = net/http reported the body shorter than declared. *)
+Theorem C16_pipeline_roundtrip : forall m, msg_ok m = true -> pipeline_receive false (pipeline_body m) = Some m.
+Proof. exact pipeline_roundtrip. Qed.
+Print Assumptions C16_pipeline_roundtrip.
+
+Theorem C16_pipeline_short_body_refused : forall body, pipeline_receive true body = None.
+Proof. exact pipeline_short. Qed.
+Print Assumptions C16_pipeline_short_body_refused.
+
+(* the pipeline body has NO framing of its own: cut cleanly at a field boundary it unmarshals to another message
+   (here: the ToGroup is lost). Truncation is caught one layer down, by net/http's Content-Length accounting
+   (modelled by [short], exercised on the real handler by the H cases): trusted, not proved. *)
+Theorem C16_pipeline_unframed_refuted :
+  exists m k m', msg_ok m = true /\ (k < length (pipeline_body m))%nat /\
+    pipeline_receive false (firstn k (pipeline_body m)) = Some m' /\ m' <> m.
+Proof.
+  exists exA1, (length (msg_marshal exA1) - (2 + length (group_marshal gA_to)))%nat, (set_m_tog group0 exA1).
+  split; [vm_compute; reflexivity|]. split; [vm_compute; lia|].
+  split; [vm_compute; reflexivity|vm_compute; discriminate].
+Qed.
+Print Assumptions C16_pipeline_unframed_refuted.
+
+Theorem C16_snapshot_roundtrip : forall m db,
+  plain_msg_ok m = true -> m_type m = msg_snap -> snap_receive false (snap_body m db) = SnapDelivered m db.
+Proof. exact snap_roundtrip. Qed.
+Print Assumptions C16_snapshot_roundtrip.
+
+Theorem C16_snapshot_truncation : forall m db p q short,
+  plain_msg_ok m = true -> snap_body m db = p ++ q ->
+  snap_receive short p = SnapRejected \/
+  exists db', snap_receive short p = SnapDelivered m db' /\ db = db' ++ q.
+Proof. exact snap_truncation. Qed.
+Print Assumptions C16_snapshot_truncation.
+
 (* (6) no byte stream makes the msgappv2 reader panic (length prefixes are checked against the limit
        before any make()), and the model's fuel is never exhausted *)
 Theorem C16_v2_no_panic : forall local remote s,
@@ -191,6 +227,12 @@ Example C16_ex_forward_compatible :
   msg_unmarshal (msg_marshal exA1 ++ concat (map ufield_enc
      [UVarint 15 300; UBytes 20 [1;2;3]; UFixed64 99 [1;2;3;4;5;6;7;8]; UFixed32 1000 [9;9;9;9]])) = Ok exA1.
 Proof. split; [repeat constructor; vm_compute; try reflexivity; intro; discriminate|vm_compute; reflexivity]. Qed.
+Example C16_ex_snapshot :
+  let m := hd msg0 ex_plain in
+  plain_msg_ok m = true /\ m_type m = msg_snap /\
+  snap_receive false (snap_body m [1;2;3;4]) = SnapDelivered m [1;2;3;4] /\
+  pipeline_receive false (pipeline_body m) = Some m.
+Proof. vm_compute. repeat split; reflexivity. Qed.
 Example C16_ex_plain_wf : plain_seq_ok ex_plain = true.
 Proof. vm_compute. reflexivity. Qed.
 Example C16_ex_plain_roundtrip : plain_run (plain_encode_all ex_plain) = (ex_plain, DEof).
